@@ -2,7 +2,7 @@
 From GM Require Import Base.Prelude Base.Outcome Codec.Packets Codec.Settings Engine.Model
   EngineProofs.AssocLemmas EngineProofs.PacketIds EngineProofs.WFLemmas EngineProofs.WFDefs EngineProofs.WFCore
   EngineProofs.WFComplete EngineProofs.WFClose EngineProofs.WFClose2 EngineProofs.WFService EngineProofs.WFService4
-  EngineProofs.WFEvents EngineProofs.WFData EngineProofs.WFData2.
+  EngineProofs.WFEvents EngineProofs.WFData EngineProofs.WFData2 EngineProofs.WFTrack.
 From Coq Require Import Sorting.Sorted Sorting.Permutation.
 From RecordUpdate Require Import RecordSet.
 Import RecordSetNotations.
@@ -111,11 +111,11 @@ Section Data.
   Ltac tuple_eqs H := repeat (apply pair_equal_spec in H; destruct H as [H ?]).
   Ltac core_cbn := unfold tracked, inq; cbn [core_of c_ops c_uq c_rq c_hq c_cur c_alloc c_ppub c_pnon c_pwco c_nid c_npid].
 
-  Definition hpost (h : hres) : Prop :=
+  Definition hpost (T : Prop) (h : hres) : Prop :=
     (forall site, h_out h <> Panic site) /\ WFS (h_s h) /\
-    (h_out h = Ok tt -> WFP cfg (h_s h) /\ s_st (h_s h) <> PendingConnack) /\ cinv HC (h_s h).
+    (h_out h = Ok tt -> WFP cfg (h_s h) /\ s_st (h_s h) <> PendingConnack) /\ cinv HC (h_s h) /\ (T -> TR (h_s h)).
 
-  Lemma hpost_err (s : state) d ev k : WFS s -> cinv HC s -> hpost (mkHres s d ev (Err k)).
+  Lemma hpost_err (s : state) d ev k : WFS s -> cinv HC s -> hpost (TR s) (mkHres s d ev (Err k)).
   Proof. intros H HI. unfold hpost. cbn. splits; auto; intros; discriminate. Qed.
 
   Definition pcq (s : state) : Prop := s_st s = PendingConnack -> connect_in_queue s = false.
@@ -124,7 +124,7 @@ Section Data.
   Proof. destruct l as [|a r]; [reflexivity|]. cbn. intros H Hall. rewrite (Hall a (or_introl eq_refl)) in H. discriminate. Qed.
 
   Lemma handle_connack_spec (s : state) now c :
-    WF cfg s -> cinv HC s -> pcq s -> hpost (handle_connack s now c).
+    WF cfg s -> cinv HC s -> pcq s -> hpost (TR s) (handle_connack s now c).
   Proof.
     intros [HW HP] HI Hq. unfold Model.handle_connack.
     destruct (pstate_eqb (s_st s) PendingConnack) eqn:Est; cbn [negb]; [|apply hpost_err; assumption].
@@ -164,11 +164,13 @@ Section Data.
     { destruct HI as (I1 & I2 & I3 & I4). unfold s2. destruct (cf_drain_one cfg); unfold cinv; cbn; splits; auto;
         try (apply (co_ores_reset HC); exact I3); try (apply (co_ires_reset HC); exact I4). }
     destruct (apply_session_spec cfg s2 (ca_session_present c) HW2 H92 G1 G2 G3 G4 G5 G6 Hcur2)
-      as (P1 & P2 & P3 & P4 & P5 & P6 & P7 & P8 & P9).
+      as (P1 & P2 & P3 & P4 & P5 & P6 & P7 & P8 & P9 & P10).
+    assert (HT2 : TR s -> TR s2).
+    { apply TR_queues; [exact G8|]. unfold inQ. rewrite G7. unfold s2. destruct (cf_drain_one cfg); cbn; tauto. }
     assert (HIr : cinv HC (r_s (apply_session cfg s2 (ca_session_present c)))) by (eapply cinv_comp; [exact P9|exact HI2]).
     fold st. fold s1. fold s2. set (r := apply_session cfg s2 (ca_session_present c)) in *. clearbody r.
     destruct (r_out r) as [[]|k|site] eqn:Eo.
-    - unfold hpost. cbn. split; [intros; discriminate|]. split; [exact P2|]. split; [|exact HIr]. intros _. split; [|congruence].
+    - unfold hpost. cbn. split; [intros; discriminate|]. split; [exact P2|]. split; [|split; [exact HIr|auto]]. intros _. split; [|congruence].
       unfold WFP. rewrite P4. splits.
       + rewrite P5, G9. discriminate.
       + intros i o Hi Ho. rewrite P6 in Hi. rewrite (P8 i Hi) in Ho. discriminate.
@@ -187,12 +189,12 @@ Section Data.
 
   (* (H1) an acknowledgement completes its operation *)
   Lemma hpost_succeed (s : state) id resp ev :
-    WF cfg s -> cinv HC s -> pre_connack s = false -> resp <> None -> hpost (hres_of (succeed_op cfg s id resp) ev).
+    WF cfg s -> cinv HC s -> pre_connack s = false -> resp <> None -> hpost (TR s) (hres_of (succeed_op cfg s id resp) ev).
   Proof.
     intros [HW HP] HI Hpre Hr. pose proof (pre_connack_false s Hpre) as Hst.
     pose proof (succeed_op_spec cfg [] s id resp HW (W9_of_WFP cfg s HP) (or_introl Hr)) as F.
     unfold hpost, hres_of. cbn [h_s h_out]. split; [apply F|]. split; [apply F|]. split.
-    2:{ eapply cinv_comp; [|exact HI]. apply rest_comp. apply F. }
+    2:{ split; [eapply cinv_comp; [|exact HI]; apply rest_comp; apply F|]. intros T. eapply TR_frame_c; [apply F|exact T]. }
     intros _. split.
     - eapply (WFP_after_fail cfg _ s); [exact HP|exact Hst|apply F|apply F].
     - eapply st_frame_npc; [apply F|exact Hst].
@@ -200,14 +202,17 @@ Section Data.
 
   (* (H2) an inbound packet is answered by a fresh internal operation at the back of the high-priority queue *)
   Lemma hpost_newop (s : state) p ev :
-    WF cfg s -> cinv HC s -> pre_connack s = false -> needs_pid p = false ->
-    hpost (let (s1, id) := create_operation s (new_op p false None) in mkHres (s1 <| s_hq := s_hq s1 ++ [id] |>) [] ev (Ok tt)).
+    WF cfg s -> cinv HC s -> pre_connack s = false -> needs_pid p = false -> sub_ok p ->
+    hpost (TR s) (let (s1, id) := create_operation s (new_op p false None) in mkHres (s1 <| s_hq := s_hq s1 ++ [id] |>) [] ev (Ok tt)).
   Proof.
-    intros [HW HP] HI Hpre Hn. pose proof (pre_connack_false s Hpre) as Hst.
+    intros [HW HP] HI Hpre Hn Hsub. pose proof (pre_connack_false s Hpre) as Hst.
     set (o := new_op p false None).
     destruct (create_op_spec [] s o HW eq_refl eq_refl) as (C1 & C2 & C3 & C4 & C5 & C6 & C7 & C8 & C9 & C10).
     cbn [create_operation fst snd] in *. unfold hpost. cbn [h_s h_out].
-    split; [intros; discriminate|]. split; [|split; [intros _; split|exact HI]].
+    split; [intros; discriminate|]. split; [|split; [intros _; split|split; [exact HI|]]].
+    4:{ intros T. apply (TR_newop s _ o T (fresh_id s HW)); [reflexivity| |]; unfold inQ; cbn.
+        - intros i [Q|[Q|[Q|Q]]]; try tauto. right; right; left. apply in_or_app. tauto.
+        - intros _. split; [right; right; left; apply in_or_app; right; left; reflexivity|apply unb_ok_new; exact Hsub]. }
     - eapply WFS_queues; [exact C2| | | | | | | | | | |]; cbn; auto; try tauto.
       + core_cbn. cbn. intros i. cbn. intros [H|[H|[H|[H|H]]]]; try tauto.
         apply in_app_or in H. destruct H as [H|[<-|[]]]; [tauto|]. right; right. lia.
@@ -218,22 +223,22 @@ Section Data.
     - cbn. destruct Hst as [H|[H|H]]; rewrite H; discriminate.
   Qed.
 
-  Lemma hpost_same (s : state) ev : WF cfg s -> cinv HC s -> pre_connack s = false -> hpost (mkHres s [] ev (Ok tt)).
+  Lemma hpost_same (s : state) ev : WF cfg s -> cinv HC s -> pre_connack s = false -> hpost (TR s) (mkHres s [] ev (Ok tt)).
   Proof.
-    intros [HW HP] HI Hpre. unfold hpost. cbn. split; [intros; discriminate|]. split; [exact HW|]. split; [|exact HI]. intros _. split; [exact HP|].
+    intros [HW HP] HI Hpre. unfold hpost. cbn. split; [intros; discriminate|]. split; [exact HW|]. split; [|split; [exact HI|auto]]. intros _. split; [exact HP|].
     destruct (pre_connack_false s Hpre) as [H|[H|H]]; rewrite H; discriminate.
   Qed.
 
-  Lemma handle_pingresp_spec (s : state) : WF cfg s -> cinv HC s -> hpost (handle_pingresp s).
+  Lemma handle_pingresp_spec (s : state) : WF cfg s -> cinv HC s -> hpost (TR s) (handle_pingresp s).
   Proof.
     intros [HW HP] HI. unfold handle_pingresp.
     destruct (s_st s) eqn:Est; try (apply hpost_err; assumption);
       (destruct (s_ping_to s); [|apply hpost_err; assumption]);
-      unfold hpost; cbn; (split; [intros; discriminate|]); (split; [exact HW|]); (split; [|exact HI]); intros _; rewrite Est;
+      unfold hpost; cbn; (split; [intros; discriminate|]); (split; [exact HW|]); (split; [|split; [exact HI|auto]]); intros _; rewrite Est;
       (split; [|discriminate]); unfold WFP in *; cbn; rewrite Est in *; exact HP.
   Qed.
 
-  Lemma handle_suback_spec (s : state) a : WF cfg s -> cinv HC s -> hpost (handle_suback cfg s a).
+  Lemma handle_suback_spec (s : state) a : WF cfg s -> cinv HC s -> hpost (TR s) (handle_suback cfg s a).
   Proof.
     intros HWF HI. pose proof HWF as [HW HP]. unfold handle_suback.
     destruct (pre_connack s) eqn:Hpre; [apply hpost_err; assumption|].
@@ -244,7 +249,7 @@ Section Data.
     apply hpost_succeed; [exact HWF|exact HI|exact Hpre|discriminate].
   Qed.
 
-  Lemma handle_unsuback_spec (s : state) a : WF cfg s -> cinv HC s -> hpost (handle_unsuback cfg s a).
+  Lemma handle_unsuback_spec (s : state) a : WF cfg s -> cinv HC s -> hpost (TR s) (handle_unsuback cfg s a).
   Proof.
     intros HWF HI. pose proof HWF as [HW HP]. unfold handle_unsuback.
     destruct (pre_connack s) eqn:Hpre; [apply hpost_err; assumption|].
@@ -256,7 +261,7 @@ Section Data.
     apply hpost_succeed; [exact HWF|exact HI|exact Hpre|discriminate].
   Qed.
 
-  Lemma handle_puback_spec (s : state) a : WF cfg s -> cinv HC s -> hpost (handle_puback cfg s a).
+  Lemma handle_puback_spec (s : state) a : WF cfg s -> cinv HC s -> hpost (TR s) (handle_puback cfg s a).
   Proof.
     intros HWF HI. pose proof HWF as [HW HP]. unfold handle_puback.
     destruct (pre_connack s) eqn:Hpre; [apply hpost_err; assumption|].
@@ -265,7 +270,7 @@ Section Data.
     apply hpost_succeed; [exact HWF|exact HI|exact Hpre|discriminate].
   Qed.
 
-  Lemma handle_pubcomp_spec (s : state) a : WF cfg s -> cinv HC s -> hpost (handle_pubcomp cfg s a).
+  Lemma handle_pubcomp_spec (s : state) a : WF cfg s -> cinv HC s -> hpost (TR s) (handle_pubcomp cfg s a).
   Proof.
     intros HWF HI. pose proof HWF as [HW HP]. unfold handle_pubcomp.
     destruct (pre_connack s) eqn:Hpre; [apply hpost_err; assumption|].
@@ -277,33 +282,33 @@ Section Data.
     apply hpost_succeed; [exact HWF|exact HI|exact Hpre|discriminate].
   Qed.
 
-  Lemma handle_pubrel_spec (s : state) a : WF cfg s -> cinv HC s -> hpost (handle_pubrel s a).
+  Lemma handle_pubrel_spec (s : state) a : WF cfg s -> cinv HC s -> hpost (TR s) (handle_pubrel s a).
   Proof.
     intros HWF HI. pose proof HWF as [HW HP]. unfold handle_pubrel.
     destruct (pre_connack s) eqn:Hpre; [apply hpost_err; assumption|].
     set (s1 := s <| s_q2in := set_remove (ack_pid a) (s_q2in s) |>).
-    apply (hpost_newop s1); [split; [exact HW|exact HP]|exact HI|exact Hpre|reflexivity].
+    apply (hpost_newop s1); [split; [exact HW|exact HP]|exact HI|exact Hpre|reflexivity|exact I].
   Qed.
 
-  Lemma handle_publish_spec (s : state) pb : WF cfg s -> cinv HC s -> hpost (handle_publish s pb).
+  Lemma handle_publish_spec (s : state) pb : WF cfg s -> cinv HC s -> hpost (TR s) (handle_publish s pb).
   Proof.
     intros HWF HI. pose proof HWF as [HW HP]. unfold handle_publish.
     destruct (pre_connack s) eqn:Hpre; [apply hpost_err; assumption|].
     destruct (pub_qos pb =? 0); [apply hpost_same; assumption|].
-    destruct (pub_qos pb =? 1); [apply (hpost_newop s); [exact HWF|exact HI|exact Hpre|reflexivity]|].
+    destruct (pub_qos pb =? 1); [apply (hpost_newop s); [exact HWF|exact HI|exact Hpre|reflexivity|exact I]|].
     destruct (mem (pub_pid pb) (s_q2in s)).
-    - apply (hpost_newop s); [exact HWF|exact HI|exact Hpre|reflexivity].
+    - apply (hpost_newop s); [exact HWF|exact HI|exact Hpre|reflexivity|exact I].
     - set (s0 := s <| s_q2in := set_insert (pub_pid pb) (s_q2in s) |>).
-      apply (hpost_newop s0); [split; [exact HW|exact HP]|exact HI|exact Hpre|reflexivity].
+      apply (hpost_newop s0); [split; [exact HW|exact HP]|exact HI|exact Hpre|reflexivity|exact I].
   Qed.
 
-  Lemma handle_disconnect_spec (s : state) d : WF cfg s -> cinv HC s -> hpost (handle_disconnect cfg s d).
+  Lemma handle_disconnect_spec (s : state) d : WF cfg s -> cinv HC s -> hpost (TR s) (handle_disconnect cfg s d).
   Proof.
     intros [HW HP] HI. unfold handle_disconnect. destruct (pre_connack s); [apply hpost_err; assumption|].
     destruct (version_eqb (cf_version cfg) V311); apply hpost_err; assumption.
   Qed.
 
-  Lemma handle_pubrec_spec (s : state) a : WF cfg s -> cinv HC s -> hpost (handle_pubrec cfg s a).
+  Lemma handle_pubrec_spec (s : state) a : WF cfg s -> cinv HC s -> hpost (TR s) (handle_pubrec cfg s a).
   Proof.
     intros HWF HI. pose proof HWF as [HW HP]. unfold handle_pubrec.
     destruct (pre_connack s) eqn:Hpre; [apply hpost_err; assumption|].
@@ -318,7 +323,12 @@ Section Data.
     set (sM := s <| s_ops := update id f (s_ops s) |>).
     assert (HWM : WFS sM).
     { eapply (WFc_set_pubrel [] (core_of s) _ id (ack_pid a)); [exact HW|exact El|reflexivity]. }
-    unfold hpost. cbn [h_s h_out]. split; [intros; discriminate|]. split; [|split; [intros _; split|exact HI]].
+    unfold hpost. cbn [h_s h_out]. split; [intros; discriminate|]. split; [|split; [intros _; split|split; [exact HI|]]].
+    4:{ intros T. apply (TR_gen s _ T). intros i o1 Hi Hp. right. unfold getop in Hi. cbn in Hi. apply lookup_update_inv in Hi.
+        destruct Hi as (o0 & Ho0 & [[Hne ->]|[-> ->]]).
+        - exists o0. splits; auto. unfold inQ. cbn. intros [Q|[Q|[Q|Q]]]; try tauto. right; right; left. apply in_or_app. tauto.
+        - exfalso. destruct (w_ppub _ _ HW _ _ El) as (o2 & Ho2 & Hp2 & _). unfold gop in Ho2. cbn in Ho2, Hp.
+          assert (o2 = o0) by congruence. subst o2. congruence. }
     - eapply (WFS_queues [] [] sM); [exact HWM| | | | | | | | | | |]; cbn; auto; try tauto.
       + core_cbn. cbn. intros i [H|[H|[H|[H|H]]]]; try tauto. apply in_app_or in H. destruct H as [H|[<-|[]]]; [tauto|].
         right; left. eapply (lookup_in_keys id (update id f (s_ops s))). apply lookup_update_eq. exact Ho.
@@ -333,7 +343,7 @@ Section Data.
     - cbn. destruct Hst as [H|[H|H]]; rewrite H; discriminate.
   Qed.
 
-  Lemma handle_packet_spec (s : state) now p : WF cfg s -> cinv HC s -> pcq s -> hpost (handle_packet s now p).
+  Lemma handle_packet_spec (s : state) now p : WF cfg s -> cinv HC s -> pcq s -> hpost (TR s) (handle_packet s now p).
   Proof.
     intros HWF HI Hq. pose proof HWF as [HW HP]. destruct p; cbn [Model.handle_packet]; try (apply hpost_err; assumption).
     - apply handle_connack_spec; assumption.
@@ -348,14 +358,18 @@ Section Data.
     - apply handle_disconnect_spec; assumption.
   Qed.
 
-  Definition hps_post (h : hres) : Prop :=
-    (forall site, h_out h <> Panic site) /\ WFS (h_s h) /\ (h_out h = Ok tt -> WFP cfg (h_s h)) /\ cinv HC (h_s h).
+  Definition hps_post (T : Prop) (h : hres) : Prop :=
+    (forall site, h_out h <> Panic site) /\ WFS (h_s h) /\ (h_out h = Ok tt -> WFP cfg (h_s h)) /\ cinv HC (h_s h) /\
+    (T -> TR (h_s h)).
 
-  Lemma hps_err (s : state) d ev k : WFS s -> cinv HC s -> hps_post (mkHres s d ev (Err k)).
-  Proof. intros H HI. unfold hps_post. cbn. splits; auto; intros; discriminate. Qed.
+  Lemma hps_err (T : Prop) (s : state) d ev k : WFS s -> cinv HC s -> (T -> TR s) -> hps_post T (mkHres s d ev (Err k)).
+  Proof. intros H HI HT. unfold hps_post. cbn. splits; auto; intros; discriminate. Qed.
+
+  Lemma hps_weaken (T T' : Prop) h : hps_post T' h -> (T -> T') -> hps_post T h.
+  Proof. intros (A & B & C & D & E) H. unfold hps_post. splits; auto. Qed.
 
   Lemma handle_packets_spec now : forall ps (s : state) dn ev,
-    WF cfg s -> cinv HC s -> pcq s -> hps_post (handle_packets s now ps dn ev).
+    WF cfg s -> cinv HC s -> pcq s -> hps_post (TR s) (handle_packets s now ps dn ev).
   Proof.
     induction ps as [|p rest IH]; intros s dn ev HWF HI Hq; pose proof HWF as [HW HP]; cbn [Model.handle_packets].
     { unfold hps_post. cbn. splits; auto. intros; discriminate. }
@@ -363,48 +377,50 @@ Section Data.
                           | Publish pb => do (i', t) <- ires_resolve (s_ires s) (pub_alias pb) (pub_topic pb) ;
                                           Ok (s <| s_ires := i' |>, Publish (with_topic pb t))
                           | _ => Ok (s, p) end) with
-                   | Ok (s1, p1) => WF cfg s1 /\ pcq s1 /\ cinv HC s1
+                   | Ok (s1, p1) => WF cfg s1 /\ pcq s1 /\ cinv HC s1 /\ (TR s -> TR s1)
                    | Err _ => True
                    | Panic _ => False end).
-    { destruct p; try (splits; assumption).
+    { destruct p; try (splits; auto; fail).
       destruct (co_ires HC (s_ires s) (pub_alias p) (pub_topic p) (proj2 (proj2 (proj2 HI)))) as (Hnp & Hinv).
       destruct (ires_resolve (s_ires s) (pub_alias p) (pub_topic p)) as [[i' t]|k|site] eqn:Er; cbn [obind]; try exact I.
-      - split; [split; [exact HW|exact HP]|split; [exact Hq|]].
-        destruct HI as (I1 & I2 & I3 & I4). unfold cinv. cbn. splits; auto. eapply Hinv. reflexivity.
+      - split; [split; [exact HW|exact HP]|split; [exact Hq|split]].
+        + destruct HI as (I1 & I2 & I3 & I4). unfold cinv. cbn. splits; auto. eapply Hinv. reflexivity.
+        + apply TR_queues; [reflexivity|]. unfold inQ. cbn. tauto.
       - eapply Hnp. reflexivity. }
     destruct (match p with
               | Publish pb => do (i', t) <- ires_resolve (s_ires s) (pub_alias pb) (pub_topic pb) ;
                               Ok (s <| s_ires := i' |>, Publish (with_topic pb t))
-              | _ => Ok (s, p) end) as [[s1 p1]|k|site]; [|apply hps_err; assumption|destruct Hres].
-    destruct Hres as (HWF1 & Hq1 & HI1). pose proof HWF1 as [HW1 HP1].
-    destruct (v_in (s_settings s1) p1) as [u|k|site] eqn:Ev; [|apply hps_err; assumption|].
+              | _ => Ok (s, p) end) as [[s1 p1]|k|site]; [|apply hps_err; auto|destruct Hres].
+    destruct Hres as (HWF1 & Hq1 & HI1 & HT1). pose proof HWF1 as [HW1 HP1].
+    destruct (v_in (s_settings s1) p1) as [u|k|site] eqn:Ev; [|apply hps_err; auto|].
     2:{ exfalso. exact (co_v_in HC _ _ _ Ev). }
-    destruct (handle_packet_spec s1 now p1 HWF1 HI1 Hq1) as (N1 & W1 & P1 & J1).
+    destruct (handle_packet_spec s1 now p1 HWF1 HI1 Hq1) as (N1 & W1 & P1 & J1 & K1).
     destruct (h_out (handle_packet s1 now p1)) as [[]|k|site] eqn:Eo.
-    - destruct (P1 eq_refl) as (P2 & P3). apply IH; [split; assumption|exact J1|]. intros E. congruence.
-    - apply hps_err; assumption.
+    - destruct (P1 eq_refl) as (P2 & P3). eapply hps_weaken; [apply IH; [split; assumption|exact J1|]|auto]. intros E. congruence.
+    - apply hps_err; auto.
     - exfalso. eapply N1. reflexivity.
   Qed.
 
-  Lemma net_data_spec (s : state) now data : WF cfg s -> cinv HC s -> hps_post (net_data s now data).
+  Lemma net_data_spec (s : state) now data : WF cfg s -> cinv HC s -> hps_post (TR s) (net_data s now data).
   Proof.
     intros HWF HI. pose proof HWF as [HW HP]. unfold Model.net_data.
-    destruct (pstate_eqb (s_st s) Disconnected || pstate_eqb (s_st s) Halted); [apply hps_err; assumption|].
-    destruct (pstate_eqb (s_st s) PendingConnack && connect_in_queue s) eqn:Eg; [apply hps_err; assumption|].
+    destruct (pstate_eqb (s_st s) Disconnected || pstate_eqb (s_st s) Halted); [apply hps_err; auto|].
+    destruct (pstate_eqb (s_st s) PendingConnack && connect_in_queue s) eqn:Eg; [apply hps_err; auto|].
     destruct (co_dec_feed HC (cf_version cfg) (max_incoming_size cfg) (s_dec s) data (proj1 (proj2 HI))) as (Hnpd & Hinvd).
     destruct (dec_feed (cf_version cfg) (max_incoming_size cfg) (s_dec s) data) as [[d' ps] r] eqn:Ed.
     set (s1 := s <| s_dec := d' |>).
     assert (HI1 : cinv HC s1) by (destruct HI as (I1 & I2 & I3 & I4); unfold cinv; cbn; splits; auto).
     assert (HWF1 : WF cfg s1) by (split; [exact HW|exact HP]).
+    assert (HT1 : TR s -> TR s1) by (apply TR_queues; [reflexivity|unfold inQ; cbn; tauto]).
     assert (Hq1 : pcq s1).
     { intros E. change (connect_in_queue s1) with (connect_in_queue s). change (s_st s1) with (s_st s) in E.
       rewrite E in Eg. cbn in Eg. exact Eg. }
     destruct r as [u|k|site].
-    - apply handle_packets_spec; assumption.
-    - apply hps_err; assumption.
+    - eapply hps_weaken; [apply handle_packets_spec; assumption|exact HT1].
+    - apply hps_err; auto.
     - exfalso. eapply Hnpd. reflexivity.
   Qed.
 End Data.
 
-Arguments hps_post {enc enc_reset enc_call dec dec_init dec_feed ores ores_reset ores_resolve ires ires_reset ires_resolve v_out v_in} cfg HC h.
+Arguments hps_post {enc enc_reset enc_call dec dec_init dec_feed ores ores_reset ores_resolve ires ires_reset ires_resolve v_out v_in} cfg HC T h.
 Arguments pcq {enc dec ores ires} s.
